@@ -349,7 +349,8 @@ func runC15(c *mon.Ctx) {
 	// ---- the layout pipeline ----
 	c.Stratum("layout", c.N(1500, 60000), func(k *mon.Case) {
 		r := k.Rng
-		f, info := fontgen.Font(r, fontgen.Opts{MinGlyphs: 4, MaxGlyphs: 30, Layout: "subset", Plain: true, CMap: []string{"4", "12", "both"}[r.IntN(3)]})
+		f, info := fontgen.Font(r, fontgen.Opts{MinGlyphs: 4, MaxGlyphs: 30, Layout: "subset", Plain: true, CMap: []string{"4", "12", "both", "mac"}[r.IntN(4)]})
+		k.Class("layout:cmap=" + info.CMap)
 		if len(info.CodeToGID) == 0 {
 			return
 		}
@@ -771,7 +772,7 @@ func runC15(c *mon.Ctx) {
 	})
 	req := []string{"select:exact-language", "select:non-matching-language,>=2-systems", "layout:gsub-effect", "layout:gpos-effect", "layout:no-rule-applies",
 		"kern:glyf", "kern:cff", "kern-subtable:accumulate", "kern-subtable:minimum", "kern-subtable:override", "kern-subtable:ignored", "kern-subtable:>10920-pairs", "layout:gdef-marks", "layout:history-compared", "layout:second-layouter-flipped-switches", "fixed-pitch=true", "fixed-pitch=false",
-		"features:all-off", "features:explicit", "features:nil-defaults"}
+		"features:all-off", "features:explicit", "features:nil-defaults", "layout:cmap=mac", "layout:cmap=12"}
 	for s := 0; s < 32; s++ {
 		req = append(req, fmt.Sprintf("ligature-subset=%d", s))
 	}
